@@ -333,7 +333,7 @@ def parallel(cmds, timeout=3000):
     return res
 
 
-def diff_lines(cases_path, impl_path, model_path, skip=lambda case, impl: impl == "-", limit=20):
+def diff_lines(cases_path, impl_path, model_path, skip=lambda case, impl: impl == "-", limit=60):
     """line-by-line comparison of implementation and model answers"""
     with open(cases_path, encoding="utf-8", errors="replace") as f:
         cases = f.read().split("\n")
